@@ -104,7 +104,7 @@ func c12Programs(tier string) []*Spec {
 	for _, rf := range []string{"manual", "auto"} {
 		for _, wrap := range wraps {
 			for _, extra := range []bool{false, true} {
-				for _, member := range []string{"steady", "join", "leave-rm", "leave-drop", "pop"} {
+				for _, member := range []string{"steady", "join", "leave-rm", "leave-drop", "pop", "swap"} {
 					sp := &Spec{Name: fmt.Sprintf("c12-%s-w%s-x%v", member, wrap, extra), Refresh: rf, Q: -1}
 					mkBar := func(w1, w2 []int, minW int) BarSpec {
 						return BarSpec{Total: 3,
@@ -126,6 +126,14 @@ func c12Programs(tier string) []*Spec {
 						c1 = []Op{{K: "refresh"}, {K: "abort", B: 1, F: true}, {K: "refresh"}, {K: "refresh"}}
 					case "pop":
 						sp.Pop = true
+					case "swap":
+						// a bar queued behind bar 0 takes its place (and its column cell) when bar 0 has finished; bar 1 was
+						// added first, so it is pushed back after the newcomer in the flush that swaps them
+						sp.Bars = append(sp.Bars, mkBar([]int{6, 2}, []int{4}, 0))
+						sp.Bars[2].Total = 1
+						sp.Bars[2].After = 1
+						sp.Main = []Op{{K: "add", B: 1}, {K: "add", B: 0}, {K: "add", B: 2}}
+						c0 = append(c0, Op{K: "barwait", B: 0}, Op{K: "incr", B: 2, N: 1}, Op{K: "refresh"}, Op{K: "refresh"}, Op{K: "refresh"})
 					}
 					if rf == "auto" {
 						strip := func(ops []Op) []Op {
